@@ -116,9 +116,9 @@ func cmdCheck(args []string) {
 	}
 	known := loadKnown(filepath.Join(*verifDir, "known_findings.json"))
 
-	timeout, canaryT, agree := 10, 2, 1
+	timeout, canaryT, agree := 25, 2, 1
 	if *tier == "thorough" {
-		timeout, canaryT, agree = 60, 5, 2
+		timeout, canaryT, agree = 90, 5, 2
 		solvers = append(solvers, oldZ3)
 	}
 
